@@ -331,7 +331,10 @@ def run(tier, seed, replay=None):
     from .core import run_parallel
     run_parallel(ctx, 'harness.c07', 'work', seeds, nproc=4 if ctx.quick() else None)
     return finish(ctx, aud,
-                  partial=['tilt about the centre of curvature: that the same intersection candidate is selected '
+                  partial=['whole-lens lifts are theorems for mirror (plane, conic, even asphere), scale (plane, conic; '
+                           'k = 0 or wavelength scaled too) and dummy plane (untilted, next surface plane/conic); '
+                           'polynomial / Chebyshev shapes, tilted dummies and re-anchored coordinate breaks are numerical only',
+                           'tilt about the centre of curvature: that the same intersection candidate is selected '
                            'depends on the nearest-to-vertex-plane rule (numerical, footprint <= 0.2 |R|)',
                            'aspheres under scaling: Newton-Raphson tolerance is absolute (compared at 2e-5)'],
                   assumptions=['relations are evaluated on the implementation itself (original vs transformed lens)'])
